@@ -28,6 +28,7 @@ type concScenario struct {
 	Pre      []Op
 	Conc     []Op
 	LocalSeq uint64
+	Supis    []string
 }
 
 func usageOp(k string, s int, rg int32, req int32, used int32, tag int32, trig ...string) Op {
@@ -43,6 +44,9 @@ func concScenarios() []concScenario {
 		{Name: "create-create-new-supi", Accounts: one, Conc: []Op{crA1, crA2}},
 		{Name: "create-create-two-subscribers", Accounts: one, Conc: []Op{crA1, crB}},
 		{Name: "create-create-known-supi", Accounts: one, Pre: []Op{mkCreate(0, "smf0")}, Conc: []Op{crA1, crA2}},
+		{Name: "create-create-same-consumer", Accounts: one, Pre: []Op{mkCreate(0, "smf0")}, Conc: []Op{crA1, func() Op { c := mkCreate(0, "smf1"); c.CID = 12; return c }()}},
+		{Name: "create-create-same-consumer-new-supi", Accounts: one, Conc: []Op{crA1, func() Op { c := mkCreate(0, "smf1"); c.CID = 12; return c }()}},
+		{Name: "create-create-prefix-supis", Supis: []string{"imsi-1", "imsi-11"}, Conc: []Op{mkCreate(0, "1x"), mkCreate(1, "x")}},
 		{Name: "update-update-same-session", Accounts: one, Pre: []Op{crA1, upd0}, Conc: []Op{usageOp("update", 0, 1, 100, 60, 600), usageOp("update", 0, 1, 50, 40, 601)}},
 		{Name: "update-update-two-sessions", Accounts: one, Pre: []Op{crA1, crA2, upd0}, Conc: []Op{usageOp("update", 0, 1, 100, 100, 600), usageOp("update", 1, 1, 50, 0, 601)}},
 		{Name: "update-release", Accounts: one, Pre: []Op{crA1, upd0}, Conc: []Op{usageOp("update", 0, 1, 100, 60, 600), usageOp("release", 0, 1, -1, 40, 601, "FINAL")}},
@@ -77,6 +81,9 @@ func respBrief(st Step) string {
 func concScenarioFn(sc concScenario, perm []int) func() schedScenario {
 	return func() schedScenario {
 		supis := []string{supiA, supiB}
+		if sc.Supis != nil {
+			supis = sc.Supis
+		}
 		return schedScenario{
 			Cfg: WorldCfg{Accounts: sc.Accounts, LocalSeq: sc.LocalSeq, HorizonS: 120},
 			Body: func(w *World, sctx *schedCtx) {
@@ -202,7 +209,7 @@ func concScenarioFn(sc concScenario, perm []int) func() schedScenario {
 					if st.Op.K == "create" && st.Resp.Code == 201 {
 						r := refOf(st.Resp.Location)
 						if j, dup := seen[r]; dup {
-							fs = append(fs, Finding{"duplicate-reference/concurrent-creates", fmt.Sprintf("concurrent creates %d and %d were both answered 201 with the reference %q", j+1, k+1, r)})
+							fs = append(fs, Finding{"duplicate-reference/concurrent-creates/" + sc.Name, fmt.Sprintf("concurrent creates %d and %d were both answered 201 with the reference %q", j+1, k+1, r)})
 						}
 						seen[r] = k
 					}
@@ -290,7 +297,7 @@ func init() {
 	}
 	checks["C09"] = func(t *testing.T) int { return concCheck(t, "C09") }
 	c10Schedules = func(t *testing.T, rep *Report, pool *Pool) any {
-		return runConc(t, rep, pool, []string{"create-create-new-supi", "create-create-two-subscribers", "create-create-known-supi", "create-create-create"})
+		return runConc(t, rep, pool, []string{"create-create-new-supi", "create-create-two-subscribers", "create-create-known-supi", "create-create-same-consumer", "create-create-same-consumer-new-supi", "create-create-prefix-supis", "create-create-create"})
 	}
 }
 
